@@ -1,34 +1,4 @@
-// ---------------------------------------------------------------- U-ast: imported regex_syntax AST and the "unsupported feature" predicate (C15)
-#[verifier::external_type_specification] pub struct ExPosition(Position);
-#[verifier::external_type_specification] pub struct ExSpan(Span);
-#[verifier::external_type_specification] #[verifier::external_body] pub struct ExLiteral(Literal);
-#[verifier::external_type_specification] #[verifier::external_body] pub struct ExClassUnicode(ClassUnicode);
-#[verifier::external_type_specification] #[verifier::external_body] pub struct ExClassPerl(ClassPerl);
-#[verifier::external_type_specification] #[verifier::external_body] pub struct ExClassBracketed(ClassBracketed);
-#[verifier::external_type_specification] #[verifier::external_body] pub struct ExAssertion(Assertion);
-#[verifier::external_type_specification] pub struct ExFlag(Flag);
-#[verifier::external_type_specification] pub struct ExFlagsItemKind(FlagsItemKind);
-#[verifier::external_type_specification] pub struct ExFlagsItem(FlagsItem);
-#[verifier::external_type_specification] pub struct ExFlags(Flags);
-#[verifier::external_type_specification] pub struct ExSetFlags(SetFlags);
-#[verifier::external_type_specification] pub struct ExRepetitionRange(RepetitionRange);
-#[verifier::external_type_specification] pub struct ExRepetitionKind(RepetitionKind);
-#[verifier::external_type_specification] pub struct ExRepetitionOp(RepetitionOp);
-#[verifier::external_type_specification] pub struct ExRepetition(Repetition);
-#[verifier::external_type_specification] #[verifier::external_body] pub struct ExCaptureName(CaptureName);
-#[verifier::external_type_specification] pub struct ExGroupKind(GroupKind);
-#[verifier::external_type_specification] pub struct ExGroup(Group);
-#[verifier::external_type_specification] pub struct ExAlternation(Alternation);
-#[verifier::external_type_specification] pub struct ExConcat(Concat);
-#[verifier::external_type_specification] pub struct ExAst(Ast);
-
-// derived Clone of the AST is structural
-pub assume_specification[ <Ast as Clone>::clone ](a: &Ast) -> (r: Ast)
-    ensures r == *a;
-
-/// (trigger helper)
-pub open spec fn idx(k: int) -> int { k }
-
+// ---------------------------------------------------------------- U-ast: the "unsupported feature" predicate (C15)
 /// a flag item `(?i:..)` inside a non-capturing group
 pub open spec fn is_flag_item(f: FlagsItem) -> bool { f.kind is Flag }
 
